@@ -107,6 +107,18 @@ def extract(repo):
         init.append(int(m.group(1), 16))
     out['md5Init'] = init
     out['md5Padding'] = ints(array_body(s, 'PADDING'))
+    # width of the carry comparison in update(): `count_[0] < (plain_text_len << 3)` compares the 32-bit counter with a
+    # 64-bit size_t (wide); with a uint32_t cast it is the RFC 1321 comparison (narrow). The model has both.
+    m = re.search(r'if\s*\(\s*count_\[0\]\s*<\s*(.*?)\)\s*count_\[1\]\+\+', s, flags=re.S)
+    if not m:
+        raise ValueError('md5 carry comparison not found')
+    cmp_expr = re.sub(r'\s+', '', m.group(1))
+    if cmp_expr == '(plain_text_len<<3)':
+        out['md5CarryWide'] = True
+    elif cmp_expr in ('static_cast<uint32_t>(plain_text_len<<3)', '(uint32_t)(plain_text_len<<3)', 'uint32_t(plain_text_len<<3)'):
+        out['md5CarryWide'] = False
+    else:
+        raise ValueError('unexpected md5 carry comparison: ' + cmp_expr)
     # the macros F G H I and ROTATE_LEFT are control/expressions: fingerprint their text so that an
     # edit there is at least visible in Gen.lean (the model transcribes them by hand)
     macros = {}
@@ -145,6 +157,7 @@ def render(t):
                         for (f, r, k, sh, ac) in t['md5Steps']) + ']\n')
     L.append(lean_list('md5Init', 'UInt32', t['md5Init'], 4))
     L.append(lean_list('md5Padding', 'UInt8', t['md5Padding']))
+    L.append('def md5CarryWide : Bool := %s' % ('true' if t['md5CarryWide'] else 'false'))
     for nm in ('F', 'G', 'H', 'I'):
         L.append('def md5Macro%s : String := "%s"' % (nm, t['md5Macros'][nm]))
     L.append('')
